@@ -17,6 +17,9 @@
 //     it (constants, parameters ≥ 1, len = total ≥ 1, φ choices, min/max, division by a constant)
 //     must be ≥ 1 whenever total ≥ 1: an attainable bound of 0 is a VIOLATION (no worker, nothing
 //     visited), an unknown one UNDECIDED.
+//     F:total-non-negative — the partitioned total hi_last(N-1) has a lower bound ≥ 0 at the spawn loop:
+//     structural bound of the values that evaluate to it (len ≥ 0, ± const, φ, min/max, returns of
+//     repository callees) or a dominating guard (total <= 0 ⇒ return); max(x,0) is accepted as a clamp.
 //   - SHAPE-2   callback gets (idx, element idx): slice element index, integer call arguments (m.Tri(i))
 //     and integer fields of a literal (&Point{index:i}) that depend on the loop variable must equal idx;
 //     same element source as the sequential visit; result stored at dst[idx] of make(…, total).
